@@ -46,8 +46,15 @@ def get_exp(quantizer):
   else:
     non_sign_bits = quantizer.bits
 
-  min_exp = -2 ** (non_sign_bits - 1)
-  max_exp_orig = 2 ** (non_sign_bits - 1) - 1
+  # like the qkeras po2 quantizers, the exponent needs no sign bit of its
+  # own when 0 < max_value <= 1
+  if 0 < quantizer.max_val_po2 <= 1:
+    exp_bits = non_sign_bits
+  else:
+    exp_bits = non_sign_bits - 1
+
+  min_exp = -2 ** exp_bits
+  max_exp_orig = 2 ** exp_bits - 1
 
   max_exp = max_exp_orig
   # max_value caps how many int_bits actually allowed
